@@ -26,6 +26,8 @@ import KafkaVerif.Lemmas.TransportConnC17
 import KafkaVerif.Props.C02
 import KafkaVerif.Props.C01
 import KafkaVerif.Model.SplitMerge
+import KafkaVerif.Lemmas.CodecAcct
+import KafkaVerif.Gen.DecoderCfg
 
 namespace KV.C17
 open KV KV.Reader KV.ConnOps
@@ -437,5 +439,57 @@ theorem lost_part_fails_call {α : Type} (rs : List (Except String (List α))) (
 theorem strict_merges_hold : Gen.ConnLegacy.strictMerges.all (·.2) = true := by decide
 
 end SplitMerge
+
+/-! ### the `Decoder` contract is a theorem about the structural decoder model
+
+`Decoder` above states what `readResponse_cut_is_error` needs from protocol.ReadResponse.  The C04 builder's structural
+model of the reflective decoder (Model/Codec.lean: decode.go's decoder{remain, err}, every schema type, tagged fields,
+record sets as opaque payloads; schemas and the bounded/unbounded configuration regenerated from /repo) satisfies it:
+frame accounting holds for every schema (Lemmas/CodecAcct.lean `da_all`, the mutual induction of C20's `ds_all` with
+another predicate), and `discardAll` closes the frame. -/
+
+section StructuralDecoder
+open KV.Codec KV.CodecAcct
+
+/-- ReadResponse after the size prefix, as a `Decoder` -/
+def codecDecoder (cfg : Cfg) (flex : Bool) (t : Ty) : Decoder (Int × Val) where
+  run := fun s =>
+    match respTail cfg flex t ⟨s.inp, s.sz⟩ with
+    | .ok r d => (some r, ⟨d.inp, d.remain⟩)
+    | _ => (none, s)
+  conserves := by
+    intro s
+    have h := respTail_acctz cfg flex t ⟨s.inp, s.sz⟩
+    cases hr : respTail cfg flex t ⟨s.inp, s.sz⟩ with
+    | ok r d =>
+      rw [hr] at h
+      obtain ⟨⟨pre, hp, hl⟩, hz⟩ := h
+      exact ⟨pre, hp, by simp only at hl ⊢; omega⟩
+    | error => exact Reader.Adv.refl s
+    | panic => exact Reader.Adv.refl s
+    | balloon => exact Reader.Adv.refl s
+  ok_after_discardAll := by
+    intro s a h
+    have hz := respTail_acctz cfg flex t ⟨s.inp, s.sz⟩
+    cases hr : respTail cfg flex t ⟨s.inp, s.sz⟩ with
+    | ok r d => rw [hr] at hz; simp only [hr]; exact hz.2
+    | error => simp [hr] at h
+    | panic => simp [hr] at h
+    | balloon => simp [hr] at h
+
+/-- every response schema, the decoder configuration of the current source tree, every cut position: no message -/
+theorem readResponse_cut_is_error_structural (flex : Bool) (t : Ty) (frame : Bytes)
+    (hframe : frame.length = 4 + (announced frame).toNat) (hpos : 0 ≤ announced frame) (k : Nat) (hk : k < frame.length)
+    (r : Int × Val) (d : Dec) : readResponse Gen.decoderCfg flex t (frame.take k) ≠ .ok r d :=
+  readResponse_cut_structural Gen.decoderCfg flex t frame hframe hpos k hk r d
+
+/-- and a decoded message means the whole announced frame, and nothing else, was consumed (Transport-side alignment) -/
+theorem readResponse_ok_aligned (flex : Bool) (t : Ty) (stream : Bytes) (r : Int × Val) (d : Dec)
+    (h : readResponse Gen.decoderCfg flex t stream = .ok r d) :
+    4 + (announced stream).toNat ≤ stream.length ∧ d.inp = stream.drop (4 + (announced stream).toNat) := by
+  have := readResponse_ok_consumes_frame Gen.decoderCfg flex t stream r d h
+  exact ⟨this.2.2.1, this.2.2.2.1⟩
+
+end StructuralDecoder
 
 end KV.C17
